@@ -1581,3 +1581,39 @@ TWINS = list(TWINS) + [
        '            fd.write("# " + "\\t".join(labels) + "\\n")\n')]),
 ]
 
+
+_ARRAY_ROUTE = ("        indices = np.array(indices)\n"
+                "        stop = 0\n"
+                "        for kk in range(len(indices) // chunk_size):\n"
+                "            start = chunk_size * kk\n"
+                "            stop = chunk_size * (kk + 1)\n"
+                "            yield data[indices[start:stop]]\n"
+                "        if stop < len(indices):\n"
+                "            yield data[indices[stop:]]\n")
+
+TWINS = list(TWINS) + [
+    ("array route in a private generator, delegated with `yield from`", EXP,
+     [(_ARRAY_ROUTE,
+       "        yield from _yield_stacks_sliced(data, indices, chunk_size)\n"),
+      ("def store_filtered_feature(rtdc_writer, feat, data, filtarr):",
+       "def _yield_stacks_sliced(data, indices, chunk_size):\n"
+       + _ARRAY_ROUTE.replace("\n        ", "\n    ").replace(
+           "        indices = np.array", "    indices = np.array", 1)
+       + "\n\ndef store_filtered_feature(rtdc_writer, feat, data, "
+         "filtarr):")]),
+]
+
+MUTANTS = list(MUTANTS) + [
+    ("delegated array route drops the remainder", EXP,
+     [(_ARRAY_ROUTE,
+       "        yield from _yield_stacks_sliced(data, indices, chunk_size)\n"),
+      ("def store_filtered_feature(rtdc_writer, feat, data, filtarr):",
+       "def _yield_stacks_sliced(data, indices, chunk_size):\n"
+       "    indices = np.array(indices)\n"
+       "    for kk in range(len(indices) // chunk_size):\n"
+       "        start = chunk_size * kk\n"
+       "        yield data[indices[start:start + chunk_size]]\n"
+       "\n\ndef store_filtered_feature(rtdc_writer, feat, data, "
+       "filtarr):")], "R2.2"),
+]
+
